@@ -261,7 +261,7 @@ func asString(t iterator, v interface{}) string {
 		}
 		return "false"
 	case float64:
-		return strconv.FormatFloat(v, 'g', -1, 64)
+		return strconv.FormatFloat(v, 'f', -1, 64)
 	case string:
 		return v
 	case query:
